@@ -510,6 +510,8 @@ class IrToPythonCompiler:
                 value = "math.inf"
             else:
                 value = "-math.inf"
+        elif isinstance(ins.value, float) and math.isnan(ins.value):
+            value = "math.nan"
         else:
             value = str(ins.value)
         self.emit(f"{ins.name} = {value}")
